@@ -232,6 +232,11 @@ func preliminaryProcessesChecks(processes []*Process, assumedFreeNames []Name, g
 			return fmt.Errorf("(%s) type error in process %s; %s", processes[i].Position.String(), processes[i].OutlineString(), err)
 		}
 
+		// A process declared under several provider names is duplicated (once per name), which requires contraction
+		if len(processes[i].Providers) > 1 && !types.IsContractable(processes[i].Type) {
+			return fmt.Errorf("(%s) process %s is declared with %d provider names, so it is duplicated; this is not allowed for a type in %s mode", processes[i].Position.String(), processes[i].OutlineString(), len(processes[i].Providers), processes[i].Type.Modality().FullString())
+		}
+
 		// Check also that the free names being used exist either as one of the other provider names, or as an assumed free name
 		processFreeNames := processes[i].Body.FreeNames()
 		// Remove provider names, since those are bound
